@@ -387,44 +387,55 @@ Proof. intros Ec. unfold send_message, next_message_id, send_initially. cbn [m_m
   split; [reflexivity|]. split; [reflexivity|]. intros r'. unfold subm, left. cbn [flat_map subm_o left_o]. unfold con_to. cbn [m_mtype]. rewrite Ec. cbn. auto. Qed.
 
 (* ---------------------------------------------------------------- (C) otherwise the queue only grows and the same message stays outstanding *)
-Theorem held_otherwise s e r q : Inv s -> aget r (backlogs s) = Some q -> acks s e r = false -> fails s e r = false ->
+(* the timer of the exchange with r fires (and, given [fails s e r = false], retransmits) *)
+Definition fires_on (s : st) (e : event) (r : Z) : bool :=
+  match e with
+  | Fire => match min_timer (active_exchanges s) with Some x => m_remote (x_msg x) =? r | None => false end
+  | _ => false
+  end.
+Lemma fires_on_touches s e r : touches s e r = false -> fires_on s e r = false.
+Proof. destruct e; cbn; auto. Qed.
+
+Theorem held_otherwise_detail s e r q : Inv s -> aget r (backlogs s) = Some q -> acks s e r = false -> fails s e r = false ->
   let s' := fst (step s e) in let o := snd (step s e) in
-  aget r (backlogs s') = Some (q ++ subm r o) /\ left r o = [] /\ exists x x', exs r s = [x] /\ exs r s' = [x'] /\ x_msg x' = x_msg x.
+  aget r (backlogs s') = Some (q ++ subm r o) /\ left r o = [] /\
+  exists x x', exs r s = [x] /\ exs r s' = [x'] /\ x_msg x' = x_msg x /\
+    (if fires_on s e r then x_counter x' = x_counter x + 1 /\ x_counter x < m_maxre (x_msg x) else x' = x).
 Proof. intros HI Ha Hack Hf. cbn zeta.
   destruct (inv_count_aget s r HI) as [[_ Hn]|(x & q' & Hx & Ha' & Hq)]; [congruence|]. rewrite Ha in Ha'. inv Ha'.
   destruct (touches s e r) eqn:Ht.
   2:{ destruct (step_frame s e r HI Ht) as (A & B & C). destruct (silent_logs r _ C) as (S1 & S2).
-      rewrite S1, S2, app_nil_r, B, A. split; [exact Ha|]. split; [reflexivity|]. exists x, x. auto. }
+      rewrite S1, S2, app_nil_r, B, A. split; [exact Ha|]. split; [reflexivity|]. exists x, x. rewrite (fires_on_touches s e r Ht). auto. }
   destruct e; cbn in Ht, Hack, Hf; try discriminate; try (exfalso; congruence).
   - (* Request to r *) assert (r0 = r) by lia. subst r0.
     destruct (resolve_mtype mt =? 0) eqn:Ec.
     + destruct (held_back_when_busy s (Request q r mt maxre) (Req q) r mt q' HI eq_refl ltac:(lia) Ha) as (m & Ho & Hb & He & _ & Hr & Hc).
-      rewrite Ho, Hb, He. unfold subm, left. cbn. unfold con_to. rewrite Hr, Hc, !Z.eqb_refl. cbn. split; [reflexivity|]. split; [reflexivity|]. exists x, x. auto.
+      rewrite Ho, Hb, He. unfold subm, left. cbn. unfold con_to. rewrite Hr, Hc, !Z.eqb_refl. cbn. split; [reflexivity|]. split; [reflexivity|]. exists x, x. cbn [fires_on]. auto.
     + cbn [step]. unfold tm_request, next_token.
       match goal with |- context [send_message ?a ?b ?c ?d ?e ?f ?s1] => destruct (send_message_non a b c d e f s1 Ec) as (A & B & C) end.
       destruct (C r) as (C1 & C2). unfold exs. rewrite A, B, C1, C2, app_nil_r.
-      split; [exact Ha|]. split; [reflexivity|]. exists x, x. auto.
+      split; [exact Ha|]. split; [reflexivity|]. exists x, x. cbn [fires_on]. auto.
   - (* RawSend to r *) assert (r0 = r) by lia. subst r0.
     destruct (resolve_mtype mt =? 0) eqn:Ec.
     + destruct (held_back_when_busy s (RawSend k r mt tok maxre) (Raw k) r mt q' HI eq_refl ltac:(lia) Ha) as (m & Ho & Hb & He & _ & Hr & Hc).
-      rewrite Ho, Hb, He. unfold subm, left. cbn. unfold con_to. rewrite Hr, Hc, !Z.eqb_refl. cbn. split; [reflexivity|]. split; [reflexivity|]. exists x, x. auto.
+      rewrite Ho, Hb, He. unfold subm, left. cbn. unfold con_to. rewrite Hr, Hc, !Z.eqb_refl. cbn. split; [reflexivity|]. split; [reflexivity|]. exists x, x. cbn [fires_on]. auto.
     + cbn [step]. destruct (send_message_non (Raw k) r mt 69 tok maxre s Ec) as (A & B & C).
       destruct (C r) as (C1 & C2). unfold exs. rewrite A, B, C1, C2, app_nil_r.
-      split; [exact Ha|]. split; [reflexivity|]. exists x, x. auto.
+      split; [exact Ha|]. split; [reflexivity|]. exists x, x. cbn [fires_on]. auto.
   - (* empty message from r that does not end the exchange *) assert (r0 = r) by lia. subst r0. cbn [step].
     destruct (dispatch_message_shape r mtype 0 mid 0 s) as (tail & Ho & Hn & _ & He & Hb). rewrite Ho. unfold exs. rewrite He, Hb.
     assert (Hfirst : (if (mtype =? 2) || (mtype =? 3) then remove_exchange r mid mtype s else (s, [])) = (s, [])).
     { destruct ((mtype =? 2) || (mtype =? 3)); [|reflexivity]. unfold remove_exchange.
       destruct (xget r mid (active_exchanges s)); [rewrite Z.eqb_refl in Hack; discriminate|reflexivity]. }
     rewrite Hfirst. cbn [fst snd app]. destruct (neutral_logs r tail Hn) as (N1 & N2 & _). rewrite N1, N2, app_nil_r.
-    split; [exact Ha|]. split; [reflexivity|]. exists x, x. auto.
+    split; [exact Ha|]. split; [reflexivity|]. exists x, x. cbn [fires_on]. auto.
   - assert (r0 = r) by lia. subst r0. cbn [step].
     destruct (dispatch_message_shape r mtype 69 mid tok s) as (tail & Ho & Hn & _ & He & Hb). rewrite Ho. unfold exs. rewrite He, Hb.
     assert (Hfirst : (if (mtype =? 2) || (mtype =? 3) then remove_exchange r mid mtype s else (s, [])) = (s, [])).
     { destruct ((mtype =? 2) || (mtype =? 3)); [|reflexivity]. unfold remove_exchange.
       destruct (xget r mid (active_exchanges s)); [rewrite Z.eqb_refl in Hack; discriminate|reflexivity]. }
     rewrite Hfirst. cbn [fst snd app]. destruct (neutral_logs r tail Hn) as (N1 & N2 & _). rewrite N1, N2, app_nil_r.
-    split; [exact Ha|]. split; [reflexivity|]. exists x, x. auto.
+    split; [exact Ha|]. split; [reflexivity|]. exists x, x. cbn [fires_on]. auto.
   - (* a retransmission *) cbn [step]. unfold fire. destruct (min_timer (active_exchanges s)) as [y|] eqn:E; [|discriminate Ht].
     assert (Hy : m_remote (x_msg y) = r) by lia. pose proof (min_timer_in _ _ E) as Hin.
     assert (y = x). { pose proof (in_exs r s y Hin Hy) as Hi. rewrite Hx in Hi. destruct Hi as [Hi|[]]. congruence. } subst y.
@@ -433,13 +444,20 @@ Proof. intros HI Ha Hack Hf. cbn zeta.
     unfold retransmit. rewrite (xget_own s0 x); [|destruct (HI (m_remote (x_msg x))) as (A & _); exact A|exact Hin].
     rewrite Hc. unfold schedule_retransmit. cbn [fst snd upd_ex active_exchanges backlogs upd_now s0].
     unfold subm, left. cbn [flat_map subm_o left_o app]. rewrite app_nil_r.
-    split; [exact Ha|]. split; [reflexivity|]. eexists x, _. split; [exact Hx|]. split.
+    split; [exact Ha|]. split; [reflexivity|]. eexists x, _. split; [exact Hx|]. cbn [fires_on]. rewrite E, Ht. split.
     {    unfold exs. cbn [active_exchanges upd_ex filter x_msg]. unfold to_remote at 1. cbn [x_msg]. rewrite Hy, Z.eqb_refl. f_equal.
     assert (Hz : filter (to_remote r) (xdel r (m_mid (x_msg x)) (active_exchanges s)) = []).
     { apply (filter_xdel_same r _ _ x); [fold (exs r s); rewrite Hx; cbn; lia|exact Hin|unfold key_eqb; lia]. }
     pose proof (filter_xdel_incl r r (m_mid (x_msg x)) (xdel r (m_mid (x_msg x)) (active_exchanges s))) as Hle. rewrite Hz in Hle.
     destruct (filter (to_remote r) (xdel r (m_mid (x_msg x)) (xdel r (m_mid (x_msg x)) (active_exchanges s)))); [reflexivity|cbn in Hle; lia]. }
-    reflexivity. Qed.
+    cbn [x_msg x_counter]. split; [reflexivity|]. split; [reflexivity|lia]. Qed.
+
+Theorem held_otherwise s e r q : Inv s -> aget r (backlogs s) = Some q -> acks s e r = false -> fails s e r = false ->
+  let s' := fst (step s e) in let o := snd (step s e) in
+  aget r (backlogs s') = Some (q ++ subm r o) /\ left r o = [] /\ exists x x', exs r s = [x] /\ exs r s' = [x'] /\ x_msg x' = x_msg x.
+Proof. intros HI Ha Hack Hf. destruct (held_otherwise_detail s e r q HI Ha Hack Hf) as (A & B & x & x' & C & D & E & _).
+  split; [exact A|]. split; [exact B|]. exists x, x'. auto. Qed.
+
 
 (* ---------------------------------------------------------------- liveness when the peers stay silent: firing timers empties everything *)
 Lemma trans_trans s o1 s1 o2 s2 : Trans s o1 s1 -> Trans s1 o2 s2 -> Trans s (o1 ++ o2) s2.
